@@ -26,7 +26,7 @@ fi
 grep -a "VIOLATION\|^  failing input\|^  broken\|^  correspondence\|quick:" /tmp/seed_check.txt | head -8
 [ "${SEED_VIA_WT:-0}" = 1 ] || git -C /repo checkout -- .
 # the run above rewrote evidence/<prop>.json and harness/gen.json from the CHANGED tree: put the committed ones back
-git -C /verif checkout -- evidence/$PROP.json harness/gen.json 2>/dev/null
+git -C /verif checkout -- evidence/$PROP.json harness/gen.json lean/VyxalModel/Gen 2>/dev/null
 echo "check exit=$C"
 python3 - "$ID" "$PROP" "$W" "$O" "$C" <<'PY'
 import json,sys,re
